@@ -3,7 +3,7 @@
    correspondence run (reference oracle on the implementation side). *)
 From Coq Require Import ZArith List Bool Lia.
 From MV Require Import Ast Eval Scalar Machine.
-From MV.Proofs Require Import Arith Logic Prim View OpsLocal Guards Drops DrainIt IntoIt FilterIt Core Refine DrainAbs IterAt.
+From MV.Proofs Require Import Arith Logic Prim View OpsLocal Guards Drops DrainIt IntoIt FilterIt Core Refine DrainAbs IterAt Grow IntoAbs.
 Import ListNotations.
 Open Scope Z_scope.
 
@@ -196,3 +196,20 @@ Print Assumptions C10_drain_next_back_on_the_object.
 Print Assumptions C10_into_next_on_the_object.
 Print Assumptions C10_into_next_back_on_the_object.
 Print Assumptions C10_into_len_on_the_object.
+
+(* IntoIter from creation to drop follows the double-ended cursor over the vector's elements *)
+Theorem C10_into_iter_whole_life_follows_the_cursor :
+  forall cfg, cfg_ok cfg -> needs_drop cfg = true ->
+  forall s v b bl steps,
+  vec_at s v b bl -> block_ok cfg bl -> owned s bl ->
+  let l := velems bl in
+  let Q := fun s' =>
+    (forall x, In x (somes (fst (cursor l steps))) -> ledger s' x = Out) /\
+    (forall x, In x (snd (cursor l steps)) -> ledger s' x = Dropped) /\
+    (forall x, ~ In x l -> ledger s' x = ledger s x) /\ next_elem s' = next_elem s /\
+    nth_error (vecs s') v = Some None /\
+    (exists bl', nth_error (heap s') b = Some (kill bl')) /\
+    exists evs, events s' = EvDealloc (b_size bl) (b_align bl) :: evs in
+  post (into_whole cfg v steps s) (fun r s' => r = fst (cursor l steps) /\ Q s') Q.
+Proof. exact into_abs. Qed.
+Print Assumptions C10_into_iter_whole_life_follows_the_cursor.
